@@ -270,11 +270,11 @@ Lemma coverage_ok_sound names : coverage_ok names = true -> names = seven.
 Proof. apply (list_eqb_eq String.eqb String.eqb_eq). Qed.
 
 (* ---------------------------------------------------------------- no false alarm (partial completeness)
-   Eight of the twelve clause checks are *equivalent* to their part of [C20_statement]: on tables for which
-   the statement holds these checks cannot fail.  (The remaining four -- CNamed, CStackStride, CStackBase,
-   CSpPreserved -- compare dumped query results with the table as well; their converse is open.) *)
+   Ten of the twelve clause checks are implied by their part of [C20_statement]: on tables for which
+   the statement holds these checks cannot fail.  (The remaining two -- CStackStride, CStackBase --
+   compare the dumped query results [d_argtypes] with the table as well; their converse is open.) *)
 Definition iff_clauses : list clause :=
-  [CDescr; CLifted; CStackOps; CArgs; CRet; CRetAddr; CDisjoint; CClasses].
+  [CDescr; CLifted; CStackOps; CArgs; CRet; CRetAddr; CDisjoint; CClasses; CNamed; CSpPreserved].
 
 Lemma forallb_intro {A} (f : A -> bool) l : (forall x, In x l -> f x = true) -> forallb f l = true.
 Proof. intros H. apply forallb_forall. exact H. Qed.
@@ -283,12 +283,12 @@ Theorem clause_complete_partial (a : abi) (t : dump) (k : clause) :
   C20_statement a t -> In k iff_clauses -> clause_ok a t k = true.
 Proof.
   intros St Hin.
-  destruct St as [Hend Hword Hsp [Helf Hld] [Hspt Hsps] [Hne Haw] Hprobe Hvoc [Hso Hsow] _ Hargs _ Hret Hra _
-                  Hdis _ [Hpre Htr]].
+  destruct St as [Hend Hword Hsp [Helf Hld] [Hspt Hsps] [Hne Haw] Hprobe Hvoc [Hso Hsow] Hnamed Hargs _ Hret Hra _
+                  Hdis [Hspp _] [Hpre Htr]].
   assert (Eb : forall e, endian_eqb e e = true) by (intros e; apply endian_eqb_eq; reflexivity).
   assert (Rb : forall r, reg_eqb r r = true) by (intros r; apply reg_eqb_eq; reflexivity).
   cbn in Hin.
-  destruct Hin as [<-|[<-|[<-|[<-|[<-|[<-|[<-|[<-|[]]]]]]]]]; cbn [clause_ok].
+  destruct Hin as [<-|[<-|[<-|[<-|[<-|[<-|[<-|[<-|[<-|[<-|[]]]]]]]]]]]; cbn [clause_ok].
   - (* CDescr *)
     rewrite Hend, Hword, Hsp, Helf, Hld. cbn [fst snd]. rewrite Hword.
     rewrite Eb, Z.eqb_refl, Rb, Z.eqb_refl, String.eqb_refl, Hend, Eb. reflexivity.
@@ -322,4 +322,29 @@ Proof.
         [reflexivity|apply orb_true_r].
     + intros r Hr. destruct (Hpre r Hr) as [H|H]; apply (proj2 (mem_str_In _ _)) in H; rewrite H;
         [reflexivity|apply orb_true_r].
+  - (* CNamed *)
+    apply forallb_intro. intros r Hr. apply mem_reg_In. apply Hnamed. unfold named.
+    unfold named_regs in Hr. rewrite !in_app_iff in Hr.
+    destruct Hr as [H|[H|[H|[H|H]]]]; [tauto|tauto|tauto|right; right; right; left; congruence|].
+    destruct (ret_addr (d_cc t)) as [r'|o]; cbn in H; [|contradiction].
+    destruct H as [H|[]]. right; right; right; right. congruence.
+  - (* CSpPreserved *)
+    unfold is_preserved in Hspp.
+    destruct (mem_reg (d_sp t) (preserved (d_cc t))); [reflexivity|].
+    destruct (mem_reg (d_sp t) (trashed (d_cc t))); discriminate.
+Qed.
+
+(* CStackBase: from the statement's [st_stack_argument] at k = 0, when the ABI's first stack slot fits a usize
+   (it is 0, 4, 8 or 16 in the five ABIs of CcSpec.v) *)
+Theorem clause_complete_stack_base (a : abi) (t : dump) :
+  C20_statement a t -> a_stack_base a <= usize_max -> clause_ok a t CStackBase = true.
+Proof.
+  intros St Hb. cbn [clause_ok]. apply Z.eqb_eq.
+  pose proof (st_stack_argument a t St 0%nat) as H.
+  cbn [Z.of_nat] in H. rewrite Z.mul_0_l, Z.add_0_r, Nat.add_0_r in H. specialize (H Hb).
+  unfold argument_type in H. rewrite Nat.leb_refl, Nat.sub_diag in H.
+  cbn [Z.of_nat] in H. rewrite Z.mul_0_r in H. unfold usz in H.
+  change (0 <=? usize_max) with true in H. cbn [bind] in H. rewrite Z.add_0_r in H.
+  destruct (stack_off (d_cc t) <=? usize_max); cbn [bind] in H; [|discriminate].
+  congruence.
 Qed.
